@@ -21,7 +21,7 @@ def theta_strategy(family):
         return st.one_of(st.floats(1.0, 5.0), st.floats(1.0, 5.0), log_uniform(1e-6, 4.0).map(lambda x: 1.0 + x),
                          st.sampled_from([1.0, 1.0, 2.0, 5.0]))
     if family == 'frank':
-        mag = st.one_of(log_uniform(1e-3, 18.2), st.floats(0.1, 18.2), st.sampled_from([1.0, 5.0, 18.2]))
+        mag = st.one_of(log_uniform(1e-3, 18.2), st.floats(0.1, 18.2), log_uniform(1e-7, 1e-2), st.sampled_from([1.0, 5.0, 18.2]))
         return st.builds(lambda m, s: m if s else -m, mag, st.booleans())
     raise ValueError(family)
 
